@@ -1,5 +1,6 @@
 import YatimlModel.Lemmas.RecSound
 import YatimlModel.Model.Process
+import YatimlModel.Lemmas.RecPerm
 /-!
 # C03 — polymorphic positions resolve to the unique most-derived match, never a guess
 -/
@@ -98,5 +99,44 @@ theorem C03_bad_tag_fails (env : Env) (n : Node) (top : Bool) (t : Ty) (causes :
     have := hbad d hb
     have hc : ¬ (Ty.cls d.name = t) := fun e => this e.symm
     simp [hc]
+
+/-! ### order independence -/
+
+/-- **Registration order.**  Two class tables holding the same classes (distinct names) in a different
+order recognise the same *set* of types for every node and type, and fail fatally together.  (The class
+table is consulted by order only in `directSubclasses`; every later stage — savorize, retagging, the
+constructors, `isinstance` — looks classes up by name: `EnvPerm.find_eq`, `isRegistered_eq`, `byTag_eq`.) -/
+theorem C03_registration_order (env env' : Env) (h : EnvPerm env env') (fuel : Nat) (n : Node) (T : Ty) :
+    RRel (recognize env fuel n T) (recognize env' fuel n T) :=
+  recognizeReq_perm env env' h fuel n (.ty T)
+
+/-- hence: if one order singles out a type, every order singles out that type; and if one order does
+not (no type, or several), no order does -/
+theorem C03_registration_order_single (env env' : Env) (h : EnvPerm env env') (fuel : Nat) (n : Node) (T R : Ty)
+    (ls : List Leaf) (hr : recognize env fuel n T = .ok ([R], ls)) :
+    ∃ ls', recognize env' fuel n T = .ok ([R], ls') :=
+  rrel_singleton (C03_registration_order env env' h fuel n T)
+    (recognizeReq_nodup env fuel n (.ty T)) (recognizeReq_nodup env' fuel n (.ty T)) R ls hr
+
+/-- **Order of Union members.** -/
+theorem C03_union_member_order (env : Env) (fuel : Nat) (n : Node) (ms ms' : Tys)
+    (hp : ms.toList.Perm ms'.toList) :
+    RRel (recognize env (fuel + 1) n (.union ms)) (recognize env (fuel + 1) n (.union ms')) :=
+  recognizeReq_union_perm env fuel n ms ms' hp
+
+theorem C03_union_member_order_single (env : Env) (fuel : Nat) (n : Node) (ms ms' : Tys)
+    (hp : ms.toList.Perm ms'.toList) (R : Ty) (ls : List Leaf)
+    (hr : recognize env (fuel + 1) n (.union ms) = .ok ([R], ls)) :
+    ∃ ls', recognize env (fuel + 1) n (.union ms') = .ok ([R], ls') :=
+  rrel_singleton (C03_union_member_order env fuel n ms ms' hp)
+    (recognizeReq_nodup env (fuel + 1) n (.ty (.union ms))) (recognizeReq_nodup env (fuel + 1) n (.ty (.union ms'))) R ls hr
+
+/-- the premises are satisfiable: a table of two classes and its reversal -/
+example (ext : Ext) :
+    EnvPerm ⟨[⟨"A", [], [], .plain, false, [], [], none, none, none, fun _ => false⟩,
+              ⟨"B", ["A"], ["A"], .plain, false, [], [], none, none, none, fun _ => false⟩], ext⟩
+            ⟨[⟨"B", ["A"], ["A"], .plain, false, [], [], none, none, none, fun _ => false⟩,
+              ⟨"A", [], [], .plain, false, [], [], none, none, none, fun _ => false⟩], ext⟩ :=
+  ⟨List.Perm.swap _ _ _, by simp, rfl⟩
 
 end YatimlModel.C03
